@@ -19,6 +19,7 @@ type Known struct {
 	ID    string
 	Class string
 	Match string
+	Any   []string // any=a|b|c : at least one alternative must occur in the reason
 	What  string
 }
 
@@ -39,6 +40,18 @@ func (k Known) Matches(class, reason string) bool {
 			if !strings.Contains(reason, part) {
 				return false
 			}
+		}
+	}
+	if len(k.Any) > 0 {
+		hit := false
+		for _, a := range k.Any {
+			if a != "" && strings.Contains(reason, a) {
+				hit = true
+				break
+			}
+		}
+		if !hit {
+			return false
 		}
 	}
 	return true
@@ -85,6 +98,8 @@ func LoadKnown(path, prop string) []Known {
 				k.Class = v
 			case "match":
 				k.Match = v
+			case "any":
+				k.Any = strings.Split(v, "|")
 			}
 		}
 		if k.Prop == prop {
